@@ -114,13 +114,13 @@ def gen_steps(rng, obj, n, *, bad_rate=0.0, malformed_rate=0.0, setter_bias=1.0,
             if name in POINT_PROPS:
                 if r < malformed_rate:
                     st["arg"] = {"kind": "malformed_point", "n": rng.choice([2, 4])}
-                elif r < malformed_rate + 0.06:
+                elif r < malformed_rate + 0.15:
                     # a nudge: the current centroid plus a shift far below the shape's size
                     # (but not zero) - what a relaxation loop assigns step after step
                     st["arg"] = {"kind": "nudge", "d": rng.unit_vector(3),
                                  "mag": 10 ** rng.uniform(-9, -3),
                                  "as": rng.choice(["list", "array"])}
-                elif r < malformed_rate + 0.13 and hasattr(obj, "vertices"):
+                elif r < malformed_rate + 0.22 and hasattr(obj, "vertices"):
                     # "put the centroid where vertex k is now": the target is a *view* of the
                     # shape's own vertex array (legal; it changes while the setter runs)
                     st["arg"] = {"kind": "own_vertex", "k": rng.randrange(64)}
